@@ -89,7 +89,7 @@ pub struct Rendered {
     pub plain: Vec<String>,
     pub marks: Vec<MarkAt>,
     /// byte ranges that must be kept verbatim (pasfmt off .. on)
-    pub regions: Vec<(usize, usize)>,
+    pub regions: Vec<(usize, usize, bool)>,
     /// number of inserted comments / directives
     pub inserted: usize,
     /// ordinals (among the plain tokens) of the tokens that are identifiers by the grammar
@@ -418,7 +418,7 @@ pub fn render(p: &Program, deco: u64, spacing: u64, o: &Opts) -> Rendered {
                 if let Some(s) = region_start.take() {
                     text.push_str(nlc);
                     text.push_str(on);
-                    regions.push((s, text.len()));
+                    regions.push((s, text.len(), false));
                     text.push_str(nlc);
                     inserted += 1;
                 }
@@ -440,7 +440,7 @@ pub fn render(p: &Program, deco: u64, spacing: u64, o: &Opts) -> Rendered {
             1 => text.push_str("\n\n  "),
             _ => {}
         }
-        regions.push((s, text.len()));
+        regions.push((s, text.len(), true));
         open_at_eof = true;
     }
     if !open_at_eof && (o.spacing_mode == 1 || o.spacing_mode == 4 || o.spacing_mode == 5) {
